@@ -15,6 +15,12 @@ P = "ptera.probe"
 S = "ptera.selector"
 
 
+def _replay_file(name):
+    import os
+    p = os.path.join(os.path.dirname(os.path.dirname(os.path.abspath(__file__))), "replay", name)
+    return lambda o: open(p).read()
+
+
 def _elements(it, k=3):
     return [SymObj(f"e{i}", Val.ref(z3.IntVal(it.ctx.new_id()))) for i in range(k)]
 
@@ -43,7 +49,7 @@ def _tset_stub(it, log):
 
 
 @unit("StackedTransforms", ["C05"], [TR + ":StackedTransforms.__init__", TR + ":StackedTransforms.push", TR + ":StackedTransforms.pop",
-                                     TR + ":StackedTransforms.get"])
+                                     TR + ":StackedTransforms.get"], replay=_replay_file("c05_history.py"))
 def u_stack(c):
     """Abstract view: a multiset Act of pushed capture tuples.  well_formed: instrument_count = |Act| and
     captures[e] = number of occurrences of e in Act (for ANY such state, symbolic counters, zero-count keys allowed).
@@ -114,7 +120,8 @@ def u_stack(c):
 
 @unit("SyncedStackedTransforms", ["C05", "C14"], [TR + ":SyncedStackedTransforms.push", TR + ":SyncedStackedTransforms.pop",
                                                  TR + ":SyncedStackedTransforms._apply", TR + ":StackedTransforms.get"],
-      assumed=["codefind.code_registry.update_cache_entry is used through a ghost event (its effect on resolution is specified under C14)"])
+      assumed=["codefind.code_registry.update_cache_entry is used through a ghost event (its effect on resolution is specified under C14)"],
+      replay=_replay_file("c05_history.py"))
 def u_synced(c):
     """After EVERY push/pop from an arbitrary well-formed state, the target function runs exactly the variant that get()
     selects for the new state: __code__, __ptera_info__, __ptera_token__ installed, __ptera_discard__ False,
@@ -335,3 +342,186 @@ def u_autotool(c):
     else:
         c.prove("ok/verified-after-tooling", st == "ok" and events[-1][0] == "verify" and events[-1][1] is r)
         c.prove("ok/result-is-selector-over-the-tooled-functions", isinstance(r, Obj) and r.cls is Call and r.fields["element"].fields["name"] is fns[0])
+
+
+# ---------------------------------------------------------------------------------------------
+# C17: Probe life cycle on top of giving.SourceProxy (interpreted from the installed giving/gvn.py)
+# ---------------------------------------------------------------------------------------------
+G = "giving.gvn"
+ev_next = z3.Function("ev_on_next", Val, Val, Val)
+ev_done = z3.Function("ev_on_completed", Val, Val)
+
+
+def _giving_hooks(it):
+    def create(it_, a, k):
+        return SymObj("observable", Val.ref(z3.IntVal(it_.ctx.new_id())), attrs={"make": a[0]})
+
+    rx = SymObj("rx", Val.ref(z3.IntVal(-5)), attrs={"create": SummaryFn("rx.create", create)})
+    it.module_env(G).vars["rx"] = rx
+
+    def hook(mod, name):
+        if mod == "giving" and name == "SourceProxy":
+            return it.get_global(G, "SourceProxy")
+        return None
+
+    prev = getattr(it, "import_hook", None)
+    it.import_hook = lambda m, n: hook(m, n) or (prev(m, n) if prev else None)
+
+
+def _observer(it, name, events):
+    def on_next(it_, a, k):
+        events.append((name, "next", a[0]))
+
+    def on_completed(it_, a, k):
+        events.append((name, "completed"))
+
+    return SymObj(name, Val.ref(z3.IntVal(it.ctx.new_id())), attrs={"on_next": SummaryFn("on_next", on_next), "on_completed": SummaryFn("on_completed", on_completed)})
+
+
+@unit("Probe.lifecycle", ["C17", "C05"], [P + ":Probe.__init__", P + ":Probe._enter", P + ":Probe._exit", P + ":Probe._emit", P + ":Probe._make_rule",
+                                          P + ":Probe._make_emitter", P + ":Probe._install_tooling", P + ":Probe._uninstall_tooling",
+                                          P + ":Probe.activate", P + ":Probe.deactivate",
+                                          G + ":SourceProxy.__init__", G + ":SourceProxy._push", G + ":SourceProxy.__enter__", G + ":SourceProxy.__exit__"],
+      assumed=["reactivex.create(make): subscribing calls make(observer, scheduler) once (observers are attached by calling make directly)",
+               "autotool is used through ghost events (its contract is the 'autotool' unit)"])
+def u_probe_lifecycle(c):
+    """A probe: opens once (second activation refused, nothing disturbed), delivers each emitted event exactly once to
+    every observer attached so far (late observers see later events only), completes every observer exactly once on
+    exit (normal or exceptional), then is silent; activation installs tooling then the overlay, deactivation removes
+    the overlay, then the registration, then the tooling."""
+    it = Interp(c)
+    _giving_hooks(it)
+    events = []
+
+    def autotool(it_, f, a, k):
+        events.append(("autotool", a[0], bool(k.get("undo", False))))
+        return a[0]
+
+    it.policies[O + ":autotool"] = autotool
+    Element = it.get_global(S, "Element")
+    Call = it.get_global(S, "Call")
+    fnobj = SymObj("f", Val.ref(z3.IntVal(c.new_id())))
+    sel = it.call(Call, [], dict(element=it.call(Element, [], dict(name=fnobj)),
+                                captures=(it.call(Element, [], dict(name="a", capture="a", tags=frozenset({1}))),)))
+    Probe = it.get_global(P, "Probe")
+    raw = bool(c.choose(2))
+    prb = it.call(Probe, [sel], dict(raw=raw))
+    HC = it.get_global(O, "HandlerCollection")
+    var = HC.attrs["current"]
+    gp = it.get_global(P, "global_probes")
+    c.prove("new/not-activated-no-observers", prb.fields["_activated"] is False and prb.fields["_observers"] == [] and prb.fields["_root"] is prb)
+    c.prove("new/immediate-rule-with-emitter", len(prb.fields["_ol"].fields["handlers"]) == 1 and prb.fields["_ol"].fields["handlers"][0].cls.name == "Immediate")
+    make = prb.fields["_obs"].attrs["make"]
+    o1 = _observer(it, "o1", events)
+    it.call(make, [o1, None], {})
+    cap = mk_obj(it, "ptera.interpret", "Capture", element=None, capture="a", names=["a"], values=[c.val("v0")])
+    # --- activation
+    st, r = run(it, it.getattr(prb, "__enter__"), [])
+    c.prove("enter/no-raise", st == "ok" and r is prb)
+    c.prove("enter/tooling-installed-once-per-selector", events == [("autotool", sel, False)])
+    c.prove("enter/activated-registered-overlay-installed", prb.fields["_activated"] is True and prb in gp and isinstance(var.value, Obj)
+            and len(var.value.fields["handler_pairs"]) == 1 and var.value.fields["handler_pairs"][0][1] is prb.fields["_ol"].fields["handlers"][0])
+    del events[:]
+    # --- an event
+    d1 = {"a": cap}
+    st, r = run(it, it.getattr(prb, "_emit"), [d1])
+    c.prove("emit/returns-ABSENT", st == "ok" and r is it.models.absent(it))
+    c.prove("emit/once-per-observer", len(events) == 1 and events[0][0] == "o1" and events[0][1] == "next")
+    if len(events) == 1:
+        payload = events[0][2]
+        if raw:
+            c.prove("emit/raw-payload-is-captures", payload is d1)
+        else:
+            c.prove("emit/payload-is-values", isinstance(payload, dict) and set(payload) == {"a"} and payload["a"] is cap.fields["values"][0])
+    del events[:]
+    # --- late subscriber sees later events only
+    o2 = _observer(it, "o2", events)
+    it.call(make, [o2, None], {})
+    c.prove("late-subscriber/no-replay", events == [])
+    st, r = run(it, it.getattr(prb, "_emit"), [d1])
+    c.prove("emit2/each-observer-once-in-order", [e[:2] for e in events] == [("o1", "next"), ("o2", "next")])
+    del events[:]
+    # --- second activation attempt
+    snap = (var.value, set(gp), list(prb.fields["_observers"]))
+    st, r = run(it, it.getattr(prb, "__enter__"), [])
+    c.prove("re-enter/refused", st == "raise")
+    c.prove("re-enter/disturbs-nothing", events == [] and var.value is snap[0] and set(gp) == snap[1] and prb.fields["_observers"] == snap[2]
+            and prb.fields["_activated"] is True)
+    # --- deactivation (normal or by exception)
+    exc = c.choose(2)
+    args = [None, None, None] if not exc else [ValueError, ValueError("x"), None]
+    st, r = run(it, it.getattr(prb, "__exit__"), args)
+    c.prove("exit/no-raise", st == "ok" and not it.truth(r))
+    c.prove("exit/completes-each-observer-once-then-untools", events == [("o1", "completed"), ("o2", "completed"), ("autotool", sel, True)])
+    c.prove("exit/overlay-and-registration-removed", var.value is None and prb not in gp and prb.fields["_observers"] == [])
+    del events[:]
+    # --- silent afterwards
+    st, r = run(it, it.getattr(prb, "_emit"), [d1])
+    c.prove("after-exit/silent", st == "ok" and events == [])
+    st, r = run(it, it.getattr(prb, "__enter__"), [])
+    c.prove("after-exit/cannot-reopen", st == "raise" and events == [])
+
+
+sp_obs = z3.Function("sp_obs", z3.IntSort(), z3.IntSort())
+
+
+@unit("SourceProxy.fanout", ["C17", "C02"], [G + ":SourceProxy._push", G + ":SourceProxy.__exit__"])
+def u_fanout(c):
+    """For ANY number of observers: _push(d) calls on_next(d) exactly once per observer in order; root __exit__ calls
+    on_completed exactly once per observer in order, then clears the list, then _exit() -- independently of the exception."""
+    from pvc.fold import Fold
+    Fold.bounded = False
+    it = Interp(c)
+    _giving_hooks(it)
+    n = z3.Int("n")
+    c.inputs["n"] = SInt(n)
+    c.assume(n >= 0)
+    data = c.val("data")
+    cleared = []
+
+    def elem(i):
+        me = Val.ref(sp_obs(i))
+
+        def on_next(it_, a, k):
+            it_.ctx.emit(ev_next(me, it_.to_val(a[0])))
+
+        def on_completed(it_, a, k):
+            it_.ctx.emit(ev_done(me))
+
+        return SymObj("obs", me, attrs={"on_next": SummaryFn("on_next", on_next), "on_completed": SummaryFn("on_completed", on_completed)})
+
+    obs = SymSeq("observers", n, elem)
+    obs_attrs_clear = SummaryFn("clear", lambda it_, a, k: cleared.append(it_.ctx.log))
+    seqobj = SymObj("observers", Val.ref(z3.IntVal(c.new_id())), attrs={"clear": obs_attrs_clear})
+    NX = Fold("NX", Log, log_nil, lambda i, acc: log_snoc(acc, ev_next(Val.ref(sp_obs(i)), data.t)))
+    which = c.choose(2)
+    SP = it.get_global(G, "SourceProxy")
+    exits = []
+    prox = Obj(SP, c.new_id())
+    prox.fields["_root"] = prox
+    prox.fields["_observers"] = obs
+    if which == 0:
+        it.loopspecs = {(G + ":SourceProxy._push", 0): LoopSpec(ghost=lambda it_, env, i: NX.at(i), axioms=lambda it_, env, i: NX.axioms(i))}
+        st, r = run(it, it.getattr(prox, "_push"), [data])
+        c.prove("push/no-raise", st == "ok")
+        c.prove("push/on_next-once-each-in-order", c.log == NX.at(n))
+    else:
+        DN = Fold("DN", Log, log_nil, lambda i, acc: log_snoc(acc, ev_done(Val.ref(sp_obs(i)))))
+        it.loopspecs = {(G + ":SourceProxy.__exit__", 0): LoopSpec(ghost=lambda it_, env, i: DN.at(i), axioms=lambda it_, env, i: DN.axioms(i))}
+        # list.clear on the symbolic observer list and the subclass hook are observed through ghost calls
+        import pvc.models as M_
+        orig = M_.symseq_attr
+
+        def symseq_attr(it_, o, name):
+            if o is obs and name == "clear":
+                return SummaryFn("clear", lambda it__, a, k: cleared.append(it__.ctx.log))
+            return orig(it_, o, name)
+
+        it.models = type("ModelsProxy", (), {**{k: getattr(M_, k) for k in dir(M_)}, "symseq_attr": staticmethod(symseq_attr)})
+        prox.cls = ClassV("SP_sub", G, SP.node, [SP], SP.env)
+        prox.cls.attrs["_exit"] = SummaryFn("_exit", lambda it_, a, k: exits.append(it_.ctx.log))
+        exc = c.choose(2)
+        st, r = run(it, it.getattr(prox, "__exit__"), [None, None, None] if not exc else [ValueError, ValueError("x"), None])
+        c.prove("exit/no-raise", st == "ok")
+        c.prove("exit/on_completed-once-each-in-order", c.log == DN.at(n))
+        c.prove("exit/then-cleared-then-_exit", len(cleared) == 1 and len(exits) == 1)
